@@ -110,6 +110,9 @@ func (P *Prog) resolveType(pkg *types.Package, text string) (types.Type, error) 
 	if text == "mathint" || text == "Int" {
 		return mathInt, nil
 	}
+	if text == "struct{}" {
+		return types.NewStruct(nil, nil), nil
+	}
 	if strings.HasSuffix(text, "Arr") && len(text) > 3 {
 		// unbounded spec array of T: "<T>Arr"
 		if t, err := P.resolveType(pkg, strings.TrimSuffix(text, "Arr")); err == nil {
@@ -266,6 +269,24 @@ func (env *Env) elab(e Expr) (Val, error) {
 			return Val{}, err
 		}
 		return env.fieldOf(v, x.Name)
+	case EMethod:
+		v, err := env.elab(x.X)
+		if err != nil {
+			return Val{}, err
+		}
+		var args []Term
+		for _, a := range x.Args {
+			av, err := env.elab(a)
+			if err != nil {
+				return Val{}, err
+			}
+			args = append(args, av.T)
+		}
+		sym, rt, err := P.ifacePureSym(v.GoT, x.Name)
+		if err != nil {
+			return Val{}, err
+		}
+		return Val{T: app(P.sorts.sortOf(rt), sym, append([]Term{v.T}, args...)...), GoT: rt}, nil
 	case EIndex:
 		v, err := env.elab(x.X)
 		if err != nil {
